@@ -857,9 +857,43 @@ class PathResult:
         self.solver_time = solver_time
 
 
-def explore(engine, run, max_paths=20000):
-    """Run ``run(engine)`` along every feasible path.  ``run`` builds fresh inputs and calls the function."""
-    stack = [[]]
+def frontier(engine, run, depth, max_nodes=4000):
+    """Decision prefixes that partition the path space: every path is cut just before its (depth+1)-th BRANCHING
+    decision (two or more feasible alternatives); paths that end earlier are returned whole.  The subtrees below
+    the returned prefixes are disjoint and together contain every feasible path, so ``explore(initial=p)`` over all
+    of them is the same exploration as ``explore()`` - spread over processes."""
+    stack = [([], 0)]
+    out = []
+    while stack:
+        prefix, nb = stack.pop()
+        engine.reset_path(prefix)
+        engine.branch_budget = depth - nb
+        try:
+            run(engine)
+        except (PyExc, PathAbort):
+            pass
+        except RecursionError:
+            pass
+        tr = engine.trace
+        out.append([c for c, _ in tr])
+        cnt = nb
+        for i in range(len(prefix), len(tr)):
+            choice, feas = tr[i]
+            if len(feas) > 1:
+                cnt += 1
+            for alt in feas:
+                if alt != choice and alt > choice:
+                    stack.append(([c for c, _ in tr[:i]] + [alt], cnt))
+        if len(out) > max_nodes:
+            raise Unsupported(f"frontier larger than {max_nodes}")
+    engine.branch_budget = None
+    return out
+
+
+def explore(engine, run, max_paths=20000, initial=None):
+    """Run ``run(engine)`` along every feasible path.  ``run`` builds fresh inputs and calls the function.
+    ``initial``: explore only the subtree below this decision prefix (one shard of ``frontier``)."""
+    stack = [list(initial) if initial else []]
     results = []
     while stack:
         prefix = stack.pop()
